@@ -44,10 +44,24 @@ CHAIN_RECORDS = {
                {"CubicBezier3D": "(⟨⟨0, 0, 0⟩, ⟨0, 0, 0⟩, ⟨0, 0, 0⟩, ⟨0, 0, 0⟩, 0⟩ : Dim3.Cubic α)"},
                {}),
 }
+TRANSLATE["viewer"] = [("Viewer", n) for n in (
+    "new", "add_pt2", "add_pt3", "add_pt2s", "add_pt3s", "add_lines2d", "add_lines3d", "add_quadratic_bezier2d",
+    "add_quadratic_bezier3d", "add_cubic_bezier2d", "add_cubic_bezier3d", "add_cubic_bezier_chain2d",
+    "add_cubic_bezier_chain3d", "add_bezier_star", "into_scad")]
+# what viewer.rs calls in dim2.rs / dim3.rs: named by their own transcriptions (Gen/SrcChain2, SrcChain3, SrcPolyhedron)
+VIEWER_EXTERNS = {
+    ("Polyhedron", "cylinder"): {"lean": "Src.Polyhedron.cylinder", "params": [("radius", "f64", "val"), ("height", "f64", "val"), ("segments", "u64", "val")], "ret": "Polyhedron", "selfmode": None, "partial": True},
+    ("Polyhedron", "apply_matrix"): {"lean": "Src.Polyhedron.apply_matrix", "params": [("self", "Polyhedron", "mutref"), ("matrix", "Mt4", "ref")], "ret": "Polyhedron", "selfmode": "mutref"},
+    ("Polyhedron", "translate"): {"lean": "Src.Polyhedron.translate", "params": [("self", "Polyhedron", "mutref"), ("point", "Pt3", "val")], "ret": "Polyhedron", "selfmode": "mutref"},
+    ("QuadraticBezier2D", "gen_points"): {"lean": "Src.QuadraticBezier2D.gen_points", "params": [("self", "QuadraticBezier2D", "ref")], "ret": "Pt2s", "selfmode": "ref"},
+    ("QuadraticBezier3D", "gen_points"): {"lean": "Src.QuadraticBezier3D.gen_points", "params": [("self", "QuadraticBezier3D", "ref")], "ret": "Pt3s", "selfmode": "ref"},
+    ("CubicBezier2D", "gen_points"): {"lean": "Src.CubicBezier2D.gen_points", "params": [("self", "CubicBezier2D", "ref")], "ret": "Pt2s", "selfmode": "ref"},
+    ("CubicBezier3D", "gen_points"): {"lean": "Src.CubicBezier3D.gen_points", "params": [("self", "CubicBezier3D", "ref")], "ret": "Pt3s", "selfmode": "ref"},
+}
 TRANSLATE["thread_parts"] = [(None, "threaded_rod"), (None, "tap"), (None, "hex_bolt"), (None, "hex_nut")]
-SOURCE = {"pipe": "pipe", "scad": "scad", "thread_parts": "metric_thread", "poly": "dim3", "chain2": "dim2", "chain3": "dim3"}
+SOURCE = {"pipe": "pipe", "scad": "scad", "thread_parts": "metric_thread", "poly": "dim3", "chain2": "dim2", "chain3": "dim3", "viewer": "viewer"}
 OUTNAME = {"pipe": "SrcPipe", "scad": "SrcScad", "thread_parts": "SrcThreadParts", "poly": "SrcPolyhedron",
-           "chain2": "SrcChain2", "chain3": "SrcChain3"}
+           "chain2": "SrcChain2", "chain3": "SrcChain3", "viewer": "SrcViewer"}
 # the ear-clipping entry points stay hand-modelled (Model/Tri.lean): named directly in the mesh builders
 POLY_EXTERNS = {
     (None, "triangulate2d"): {"lean": "Tri.triangulate2d", "params": [("vertices", "Pt2s", "ref")], "ret": "Indices", "selfmode": None, "partial": True},
@@ -89,6 +103,25 @@ def generate_file(repo, only):
                                             "partial": fn["name"] in d2_partial}
     d = scad_items if only == "scad" else parse_file(open(f"{repo}/scad_tree/src/{SOURCE[only]}.rs").read())
     G.REC_LEAN.clear(); G.REC_DEFAULT.clear(); G.NEWTYPES.clear()
+    G.FIELD_LEAN.clear()
+    if only == "viewer":
+        # the viewer reads the Bézier records of dim2.rs / dim3.rs and its own state record
+        for tgt_ in ("chain2", "chain3"):
+            rec, dflt, newt = CHAIN_RECORDS[tgt_]
+            G.REC_LEAN.update(rec); G.NEWTYPES.update(newt)
+            dd = parse_file(open(f"{repo}/scad_tree/src/{SOURCE[tgt_]}.rs").read())
+            for nm_ in list(rec) + list(newt):
+                if nm_ not in dd["structs"]:
+                    raise SystemExit(f"gen_src_{only}: struct {nm_} not found in {SOURCE[tgt_]}.rs")
+                ctx.structs[nm_] = {"fields": [(f_, G.norm_type(t_, nm_)) for f_, t_ in dd["structs"][nm_]["fields"]], "derives": []}
+        G.REC_LEAN["Viewer"] = "Viewer.State α"
+        G.FIELD_LEAN.update({("Viewer", "point_radius"): "pointRadius", ("Viewer", "edge_radius"): "edgeRadius"})
+        ctx.structs["Viewer"] = {"fields": [(f_, G.norm_type(t_, "Viewer")) for f_, t_ in d["structs"]["Viewer"]["fields"]], "derives": []}
+        ctx.structs["Polyhedron"] = {"fields": [("points", "Pt3s"), ("faces", "Faces")], "derives": []}
+        ctx.record_structs = set(G.REC_LEAN) | {"Polyhedron"}
+        ctx.sigs.update(VIEWER_EXTERNS)
+        ctx.ops[("+", "Scad", "Scad")] = ("Src.Scad.add_Scad", "Scad")
+        ctx.color_variants = {v for v, _ in scad_items["structs"]["enum ScadColor"]["variants"]}
     if only in CHAIN_RECORDS:
         rec, dflt, newt = CHAIN_RECORDS[only]
         G.REC_LEAN.update(rec); G.REC_DEFAULT.update(dflt); G.NEWTYPES.update(newt)
@@ -150,6 +183,21 @@ def generate_file(repo, only):
         if geomsrc.has_assert(fn["body"]):
             return True
         names = geomsrc.calls(fn["body"], set())
+        if only == "viewer":
+            # methods called on `self` (asserting adders), and `Option::unwrap`
+            def mcalls(x, acc):
+                if isinstance(x, tuple):
+                    if x and x[0] == "mcall" and (x[1] == ("path", ["self"]) or x[2] == "unwrap"):
+                        acc.add(x[2])
+                    for y in x:
+                        mcalls(y, acc)
+                elif isinstance(x, list):
+                    for y in x:
+                        mcalls(y, acc)
+                return acc
+            ms = mcalls(fn["body"], set())
+            if "unwrap" in ms or ms & known:
+                return True
         return any((k[1] in names) for k, sg in list(ctx.sigs.items()) if sg.get("partial")) or bool(names & known)
     partial_names = set()
     changed = True
@@ -174,11 +222,14 @@ def generate_file(repo, only):
         else:
             ctx.sigs[(ty, fn["name"])] = sig
     ctx.mut_methods = {k[1] for k in wanted if found[k][0]["_sig"]["selfmode"] == "mutref"}
+    ctx.partial_methods = {k[1] for k in wanted if found[k][0]["_sig"]["selfmode"] == "mutref" and found[k][0]["_sig"]["partial"]}
     out = [f"/- GENERATED by translator/gen_src_{only}.py (treesrc.py) from scad_tree/src/{SOURCE[only]}.rs — do not edit. -/",
            "import ScadVerif.Gen.MathSrc", "import ScadVerif.Gen.SrcDim2", "import ScadVerif.Model.Scad"] + (
            ["import ScadVerif.Gen.SrcScad", "import ScadVerif.Gen.SrcMetricThread", "import ScadVerif.Model.Thread"] if only == "thread_parts" else []) + (
            ["import ScadVerif.Model.Dim3"] if only == "poly" else []) + (
            ["import ScadVerif.Model.Dim2"] if only == "chain2" else []) + (
+           ["import ScadVerif.Gen.SrcScad", "import ScadVerif.Gen.SrcChain2", "import ScadVerif.Gen.SrcChain3", "import ScadVerif.Gen.SrcPolyhedron",
+            "import ScadVerif.Model.Viewer"] if only == "viewer" else []) + (
            ["import ScadVerif.Model.Dim3", "import ScadVerif.Gen.SrcDim3"] if only == "chain3" else []) + [
            "set_option linter.unusedVariables false",
            "namespace ScadVerif",
@@ -205,7 +256,7 @@ def generate_file(repo, only):
             errors.append(f"{only}.rs: {ty}::{nm}: not translatable ({ex})")
     if errors:
         raise SystemExit(f"gen_src_{only}: " + "; ".join(errors))
-    G.REC_LEAN.clear(); G.REC_DEFAULT.clear(); G.NEWTYPES.clear()
+    G.REC_LEAN.clear(); G.REC_DEFAULT.clear(); G.NEWTYPES.clear(); G.FIELD_LEAN.clear()
     out.append(f"def Src.{only}.translated : List String := [" + ", ".join(f'"{found[k][0]["_sig"]["lean"]}"' for k in wanted) + "]")
     out.append(f"def Src.{only}.skipped : List String := [" + ", ".join(f'"{x}"' for x in skipped) + "]")
     out.append("\nend ScadVerif")
